@@ -139,13 +139,19 @@ Definition inc_le (rs ws : list nat) : list gate :=
   end.
 Definition incrementer (wires work : list nat) : list gate := inc_le (rev wires) work.
 
-(* Incrementer._incrementer_fallback_decomposition : for i = n-1 downto 2 (for_loop(len(wires) - 1, 1, -1)):
-   MultiControlledX(controls = the i-1 least significant wires, target = wire of weight 2^(i-1)); then X(lsb).
-   Transcribed as written (the loop starts at n-1, so the most significant wire is never a target). *)
+(* Incrementer._incrementer_fallback_decomposition : for i = n downto 2 (for_loop(len(wires), 1, -1)):
+   MultiControlledX(controls = the i-1 least significant wires (lsb first), target = wire of weight 2^(i-1));
+   then X(lsb).  Generated as a recursion over the little-endian wire list: `pref` = the wires below the
+   current target; the gate of the HIGHER targets comes first.  Equality of the produced gate list with the
+   real decomposition is part of the correspondence check. *)
 Definition ones (l : list nat) : list (nat * bool) := map (fun w => (w, true)) l.
+Fixpoint mcx_ladder (pref rest : list nat) : list gate :=
+  match rest with
+  | [] => []
+  | t :: rest' => mcx_ladder (pref ++ [t]) rest' ++ [GX (ones pref) t]
+  end.
 Definition inc_fallback_le (r : list nat) : list gate :=
-  map (fun i => GX (ones (firstn (i - 1) r)) (nth (i - 1) r O)) (rev (seq 2 (length r - 2)))
-  ++ match r with r0 :: _ => [XG r0] | [] => [] end.
+  match r with [] => [] | r0 :: rs => mcx_ladder [r0] rs ++ [XG r0] end.
 Definition incrementer_fallback (wires : list nat) : list gate := inc_fallback_le (rev wires).
 
 (* IntegerComparator: bits of the value, most significant first, over n control wires *)
